@@ -18,7 +18,7 @@ RULE = ('relabelling equivariance: for a seeded scenario S and a byte permutatio
         'exits non-zero for an 8-bit pattern under -7.  distinct = event-log hash, non-trivial = >= 2 tokens and the swapped byte occurs in the input')
 TIERS = {
     'quick': {'scenarios': 64, 'inputs': 6, 'wall_cap': 600},
-    'thorough': {'scenarios': 700, 'inputs': 10, 'wall_cap': 3300},
+    'thorough': {'scenarios': 3000, 'inputs': 10, 'wall_cap': 3300},
 }
 COMPONENTS = sb.COMPONENTS
 ASSUMPTIONS = ['immune to tokenisation bugs by construction: both twins run the same generator code paths except where a byte value is special to the scanner',
